@@ -321,6 +321,11 @@ impl<'a> DPccp<'a> {
         if n == 0 {
             return None;
         }
+        // Subsets of relations are u64 bit sets: beyond 63 relations the shifts overflow.
+        // No reordering then; the caller keeps the join order as written.
+        if n > 63 {
+            return None;
+        }
         if n == 1 {
             let node = &self.graph.nodes[0];
             let cardinality = self.card_estimator.estimate(&node.relation);
